@@ -1082,6 +1082,10 @@ ATHERIS_VARIANTS = [
     ("phylip", {"data_type": "dna", "strict": False, "interleaved": True}),
     ("phylip", {"data_type": "standard", "strict": True, "interleaved": True}),
     ("fasta", {"data_type": "dna"}), ("fasta", {"data_type": "protein"}),
+    ("phylip", {"data_type": "continuous", "strict": False, "interleaved": False}),
+    ("phylip", {"data_type": "continuous", "strict": False, "interleaved": True}),
+    ("phylip", {"data_type": "protein", "strict": False, "interleaved": False}),
+    ("nexus", {}), ("fasta", {"data_type": "standard"}),
 ]   # must list the same (schema, kwargs) as fuzz/c20_atheris.py VARIANTS, in the same order
 
 
